@@ -1,10 +1,14 @@
 import numbers
+import re
 
 import numpy as np
 
 
 def f1dfloatduple(value):
     """Tuple of two floats (duple)"""
+    if isinstance(value, str):
+        # string from a configuration file, e.g. "[1.5, 2.5]" or "(1.5, 2.5)"
+        value = value.strip("()[] ").split(",")
     if np.array(value).ndim != 1:
         raise ValueError(f"Value is not 1 dimensional, got {value}!")
     value = tuple(float(i) for i in value)
@@ -16,6 +20,10 @@ def f1dfloatduple(value):
 
 def f2dfloatarray(value):
     """numpy floating point array"""
+    if isinstance(value, str) and value.strip().startswith("["):
+        # string from a configuration file, e.g. "[[1.0, 2.0], [3.0, 4.0]]"
+        value = [[float(it) for it in row.split(",") if it.strip()]
+                 for row in re.findall(r"\[([^\[\]]*)\]", value)]
     return np.array(value, dtype=np.float64)
 
 
